@@ -945,23 +945,38 @@ def cache_9_10(ctx, rep):
              if m in ('__getstate__', '__setstate__', '__reduce__', '__reduce_ex__', '__getnewargs__', '__getnewargs_ex__')]
     rep.ob('CACHE-9', CACHE, item.qual, 'no custom pickling hook on the entry class', not hooks,
            'the entry class defines %s: what is loaded is not what was stored' % hooks)
-    ts = ctx.view(prog.func(CACHE, 'try_to_save_module'), keep=KEEP)
+    ts0 = prog.func(CACHE, 'try_to_save_module')
     from ..facts import guards_of
-    params = set(ts.all_params())
+    # the write may sit in try_to_save_module itself or in a private helper only it calls (then the guards of the call of
+    # that helper count as well)
+    parts = ctx.parts_of({ts0.key})
+    chain = [ctx.view(ts0, keep=KEEP)] + [prog.funcs[k] for k in sorted(parts)]
     n_calls = 0
-    for n in walk_own(ts.node):
-        if isinstance(n, ast.Call) and norm(n.func) == '_save_to_file_system':
-            n_calls += 1
-            bad = None
-            for t, pol in guards_of(n):
-                for sub in ast.walk(t):
-                    if isinstance(sub, ast.Call):
-                        bad = sub                       # a condition that calls something: looks at state outside the arguments
-                    elif isinstance(sub, ast.Attribute) and not (isinstance(sub.value, ast.Name) and sub.value.id in params):
-                        bad = bad or sub
-            rep.ob('CACHE-10', CACHE, ts.qual, 'guards of the pickle write %s' % norm(n)[:60], bad is None,
-                   'the save is skipped depending on %s: an existing cache file that only looks fresh (torn by a crash, same '
-                   'mtime) is never overwritten, every new process misses the cache again' % (norm(bad) if bad is not None else ''),
-                   witness=norm(bad) if bad is not None else None)
+
+    def guards_up(fn, node, depth=0):
+        out = list(guards_of(node))
+        if fn.key != ts0.key and depth < 4:
+            for g in chain:
+                for c in walk_own(g.node):
+                    if isinstance(c, ast.Call) and isinstance(c.func, (ast.Name, ast.Attribute)) \
+                            and (getattr(c.func, 'id', None) == fn.name or getattr(c.func, 'attr', None) == fn.name):
+                        out += [(t, pol) for t, pol in guards_up(g, c, depth + 1)]
+        return out
+    for fn in chain:
+        params = set(fn.all_params())
+        for n in walk_own(fn.node):
+            if isinstance(n, ast.Call) and norm(n.func) == '_save_to_file_system':
+                n_calls += 1
+                bad = None
+                for t, pol in guards_up(fn, n):
+                    for sub in ast.walk(t):
+                        if isinstance(sub, ast.Call):
+                            bad = sub                   # a condition that calls something: looks at state outside the arguments
+                        elif isinstance(sub, ast.Attribute) and not isinstance(sub.value, ast.Name):
+                            bad = bad or sub
+                rep.ob('CACHE-10', CACHE, ts0.qual, 'guards of the pickle write %s' % norm(n)[:60], bad is None,
+                       'the save is skipped depending on %s: an existing cache file that only looks fresh (torn by a crash, same '
+                       'mtime) is never overwritten, every new process misses the cache again' % (norm(bad) if bad is not None else ''),
+                       witness=norm(bad) if bad is not None else None)
     if not n_calls:
         raise AnalysisError('CACHE-10: try_to_save_module no longer reaches _save_to_file_system')
